@@ -5,5 +5,6 @@ CONSTANTS
   FullLen = 4
   MaxMacroFlat = 2
   PartsLevel = 1
+  LongMacros = {"HL261", "HL262", "HL300"}
 INVARIANT MCLaws
 CHECK_DEADLOCK FALSE
